@@ -8,7 +8,8 @@
 From Coq Require Import List NArith Bool Arith String.
 Import ListNotations.
 From Indi Require Import Base.Sx Msg.Equality B64.Model Num.Model Router.Model Driver.Model Driver.Write Client.Model
-     Buffer.Model Buffer.Props Buffer.Junk Buffer.Framing System.Model System.Blob.
+     Buffer.Model Buffer.Props Buffer.Junk Buffer.Framing Driver.Props Client.Props Client.Norm System.Model System.Blob
+     System.Converge System.Ops System.Deliver System.Handshake System.WriteE2E System.BlobE2E.
 
 Theorem payload_survives_the_text_encoding b : forallb is_byte b = true -> decode (encode b) = Some b.
 Proof. exact (b64_roundtrip b). Qed.
@@ -49,7 +50,7 @@ Theorem blob_connection_frames_messages_of_any_length : forall msg parse tags,
   forall pieces l data u,
   wf msg parse tags None l -> data ++ List.concat pieces ++ u = flatten msg l ->
   nothing_overdue msg l data ->
-  let '(outs, dfin) := feed msg parse tags None data pieces in
+  let '(outs, dfin) := Buffer.Model.feed msg parse tags None data pieces in
   Forall (fun om => fst om = Done) outs /\
   exists l', wf msg parse tags None l' /\ dfin ++ u = flatten msg l' /\
              msgs msg l = deliveries msg outs ++ msgs msg l' /\ nothing_overdue msg l' dfin.
@@ -70,3 +71,44 @@ Theorem long_message_is_destroyed_refuted :
   delivered (Some 32%nat) k1_pieces = 0%nat /\ delivered None k1_pieces = 1%nat /\ delivered (Some 32%nat) [k1_message] = 1%nat.
 Proof. exact long_message_on_a_threshold_link. Qed.
 Print Assumptions long_message_is_destroyed_refuted.
+
+(* ---------- end to end in the composed system model ---------- *)
+(* driver -> client: the driver assigns a payload to an enabled element of an exposed BLOB property; the connected
+   network client (BLOB connection: Only) then shows that element with identical bytes and format *)
+Theorem a_published_payload_is_shown_identically s c e d vn i b f g v el :
+  one_client s c (d_name d) -> cl_in_ctl c = [] -> cl_in_blob c = [] ->
+  find_dev s e = Some d -> e <> cl_ctl c -> e <> cl_blob c ->
+  dev_ok d -> net_synced (cl_mirror c) d ->
+  find_gv vn (d_groups d) = Some (g, v) -> v_kind v = KBlob -> vec_on g v = true ->
+  nth_error (v_elems v) i = Some el -> e_enabled el = true -> forallb is_byte b = true ->
+  exists c' cv ce,
+    sy_cls (sstep s (SDrv e (OAssign vn i (VBlob (Some (b, f)))))) = [c'] /\
+    get_vec (cl_mirror c') (d_name d) vn = Some cv /\
+    dget ce_name (e_name el) (cv_elems cv) = Some ce /\ ce_value ce = CBlob b f.
+Proof. exact (published_blob_end_to_end s c e d vn i b f g v el). Qed.
+Print Assumptions a_published_payload_is_shown_identically.
+
+(* client -> driver: a submitted write reaches the driver of the named device, whatever it then publishes ... *)
+Theorem a_submitted_write_reaches_the_driver s c e d vn a m :
+  one_client s c (d_name d) -> one_device s e d -> sy_cls s = [c] ->
+  cl_in_ctl c = [] -> cl_in_blob c = [] -> e <> cl_ctl c -> e <> cl_blob c ->
+  dev_ok d -> net_synced (cl_mirror c) d ->
+  submit_msg (cl_mirror c) (d_name d) vn a = Some m -> client_msg (d_name d) (wire m) ->
+  exists c',
+    sy_cls (sstep s (SWrite 0 (d_name d) vn a)) = [c'] /\
+    find_dev (sstep s (SWrite 0 (d_name d) vn a)) e = Some (fst (from_client d (wire m))) /\
+    cl_in_ctl c' = [] /\ cl_in_blob c' = [].
+Proof. exact (client_write_reaches_driver s c e d vn a m). Qed.
+Print Assumptions a_submitted_write_reaches_the_driver.
+
+(* ... and a message carrying the uploaded child (as the client library builds it, after the wire) leaves the driver
+   holding the identical bytes and format in the named element *)
+Theorem an_uploaded_payload_is_held_identically d vn en b f g v el i :
+  dev_ok d -> find_gv vn (d_groups d) = Some (g, v) -> v_kind v = KBlob ->
+  nth_error (v_elems v) i = Some el -> e_name el = en -> forallb is_byte b = true ->
+  forall m, mk m = s2l "newBLOBVector" -> lookup (s2l "name") (ma m) = Some vn ->
+            mc m = Some [Msg.Codec.norm_part (new_part KBlob en (WBlob b f))] ->
+  exists v', find_vec vn (fst (from_client d m)) = Some v' /\
+             exists el', nth_error (v_elems v') i = Some el' /\ e_name el' = en /\ e_value el' = VBlob (Some (b, f)).
+Proof. exact (uploaded_blob_is_held d vn en b f g v el i). Qed.
+Print Assumptions an_uploaded_payload_is_held_identically.
